@@ -1,6 +1,7 @@
 import GrVerif.Proofs.PassAssoc
 import GrVerif.Props.C12
 import GrVerif.Model.Assoc
+import GrVerif.Proofs.AssocCover
 /-!
 # C05 — characters and slots stay validly associated   (partial)
 
@@ -20,9 +21,15 @@ The same for the **whole modelled pipeline** (`pipeline_assoc_in_range`): `read_
 
 *Second sentence, character side* (`associateChars`): the function is modelled (`Model/Assoc.lean`, including the repair
 of the one-sided case) and tied to the code by correspondence.  Proved: every char-info's `before`/`after` is a slot
-index of the stream or −1 (`cinfo_values_are_slot_indices`).  The coverage clause (no −1 left, every character inside
-some slot's range) is decided on the implementation's output by the predicate of `tools/props/c05.py`, not yet by a theorem.  On the pinned tree the
-coverage clause fails for fonts whose positioning passes contain `ASSOC`/`PUT_COPY` (known finding D-9).
+index of the stream or −1 (`cinfo_values_are_slot_indices`), and the **coverage clause** for the function itself
+(`association_covers_every_character`, `Proofs/AssocCover.lean`): on a non-empty stream whose slots carry proper ranges
+(`0 ≤ before ≤ after < n` – what the check evaluates for every stream it feeds to the real `associateChars`), every character
+index lies in the `[before, after]` range of some slot afterwards: a character inside an input range stays inside it, a
+character in a gap is claimed by the first slot whose range ends just in front of the gap (forward scan) or, for a gap at the
+start, by the first slot whose range begins just behind it (backward scan).  For streams with inverted ranges (`before >
+after`, which `insert` can produce) the clause is decided on the implementation's output by the predicate of
+`tools/props/c05.py`; end to end it fails on the pinned tree for fonts whose positioning passes contain `ASSOC`/`PUT_COPY`
+(they run after `associateChars`; known finding D-9).
 -/
 set_option linter.unusedVariables false
 namespace GrVerif.Props.C05
@@ -86,5 +93,28 @@ example : AssocOK 2 segEx := by
 by the neighbouring slots and every char-info ends up with two slot indices -/
 example : Assoc.associateChars 4 [(0, 0), (2, 2)] =
     ([(0, 1), (1, 3)], [⟨0, 0⟩, ⟨1, 0⟩, ⟨1, 1⟩, ⟨1, 1⟩], false) := by decide
+
+/-- **C05, coverage clause (`Segment::associateChars`).**  For every non-empty stream of slots whose ranges are proper and lie inside
+the segment's `n` characters, after `associateChars` every character index lies in the `[before, after]` range of at least one slot. -/
+theorem association_covers_every_character (n : Nat) (slots : List (Int × Int)) (hP : Assoc.Proper n slots) (hne : slots ≠ [])
+    (j : Int) (h0 : 0 ≤ j) (hn : j < n) : ∃ q ∈ (Assoc.associateChars n slots).1, q.1 ≤ j ∧ j ≤ q.2 :=
+  Assoc.associateChars_covers n slots hP hne j h0 hn
+
+/-- **C05, character side, no −1 left.**  On such a stream every char-info ends up with slot indices in both fields: together with
+`cinfo_values_are_slot_indices`, `before` and `after` of every character lie in `[0, number of slots)`. -/
+theorem every_character_gets_slot_indices (n : Nat) (slots : List (Int × Int)) (hP : Assoc.Proper n slots) (hne : slots ≠ []) :
+    ∀ c ∈ (Assoc.associateChars n slots).2.1,
+      0 ≤ c.before ∧ c.before < (slots.length : Int) ∧ 0 ≤ c.after ∧ c.after < (slots.length : Int) := by
+  intro c hc
+  have h1 := Assoc.associateChars_cinfo_nonneg n slots hP hne c hc
+  have h2 := cinfo_values_are_slot_indices n slots c hc
+  exact ⟨h1.1, h2.2.1, h1.2, h2.2.2.2⟩
+
+/-- the hypothesis is satisfiable and the function is exercised: three slots over six characters with two gaps -/
+example : Assoc.Proper 6 [(1, 1), (1, 2), (4, 4)] ∧ (Assoc.associateChars 6 [(1, 1), (1, 2), (4, 4)]).1 = [(0, 1), (1, 3), (3, 5)] := by
+  refine ⟨?_, by decide⟩
+  intro p hp
+  simp only [List.mem_cons, List.mem_nil_iff, or_false] at hp
+  rcases hp with h | h | h <;> subst h <;> decide
 
 end GrVerif.Props.C05
